@@ -795,7 +795,10 @@ class SyncState:  # pylint: disable=too-many-instance-attributes, too-many-publi
             else:
                 self._changeset_storage.discard(ent)
                 if ent[other_side(side)].changed and not ent[other_side(side)].oid:
-                    ent[other_side(side)].changed = 0  # otherwise there is a change that is not in the changeset
+                    # otherwise there is a change that is not in the changeset.  Stored directly: this hook runs
+                    # before the new value of `side` is stored, so going through the interceptor again would bounce
+                    # between the two sides for ever when both hold a change flag without an id
+                    ent[other_side(side)]._changed = 0
         elif key == "priority":
             if val > ent.priority and val > 0:
                 # move to later on priority drop below zero
